@@ -351,6 +351,31 @@ func main() {
 		}
 		ov[filepath.Join(*repo, pkg, name)] = s
 	}
+	// third-party clocks the properties depend on: go-cache (proposal de-dup, push/pull holders) reads time.Now for expiry
+	for _, mod := range []string{"github.com/patrickmn/go-cache"} {
+		dirB, err := exec.Command("bash", "-c", "cd "+*repo+" && go list -m -f '{{.Dir}}' "+mod).Output()
+		must(err)
+		dir := strings.TrimSpace(string(dirB))
+		files, _ := filepath.Glob(filepath.Join(dir, "*.go"))
+		for _, path := range files {
+			if strings.HasSuffix(path, "_test.go") {
+				continue
+			}
+			fset := token.NewFileSet()
+			f, err := parser.ParseFile(fset, path, nil, parser.ParseComments)
+			must(err)
+			var st2 stats
+			if !rewrite(fset, f, filepath.Base(dir)+"/"+filepath.Base(path), &st2) {
+				continue
+			}
+			var buf bytes.Buffer
+			must((&printer.Config{Mode: printer.SourcePos | printer.TabIndent, Tabwidth: 8}).Fprint(&buf, fset, f))
+			dst := filepath.Join(*out, "src", "thirdparty__"+strings.ReplaceAll(filepath.Base(dir), "+", "_")+"__"+filepath.Base(path)+".txt")
+			must(os.WriteFile(dst, buf.Bytes(), 0644))
+			ov[path] = dst
+			nfiles++
+		}
+	}
 	runtimeOverlay(*out, ov)
 	b, _ := json.MarshalIndent(map[string]interface{}{"Replace": ov}, "", " ")
 	must(os.WriteFile(filepath.Join(*out, "overlay.json"), b, 0644))
